@@ -34,6 +34,8 @@ type scope struct {
 	grouped    bool                // aggregate query without GROUP BY: plain column references are invalid
 	aggs       map[*FuncCall]Value // aggregate results of this query level
 	rowNumber  int64               // row_number() OVER () of the current row
+	groupKeys  map[string]Value    // GROUP BY: canonical expression -> value for the current group
+	ctes       map[string]*resultSet // WITH queries visible from here
 }
 
 func (sc *scope) findVar(name string) *variable {
@@ -225,6 +227,11 @@ func (s *session) isTrue(e Expr, sc *scope) (bool, error) {
 }
 
 func (s *session) eval(e Expr, sc *scope) (Value, error) {
+	if sc != nil && sc.groupKeys != nil { // grouped query: an expression equal to a GROUP BY item is that group's key
+		if v, ok := sc.groupKeys[s.canon(e, sc)]; ok {
+			return v, nil
+		}
+	}
 	switch x := e.(type) {
 	case *Literal:
 		return x.Val, nil
@@ -423,7 +430,11 @@ func (s *session) evalBinary(x *Binary, sc *scope) (Value, error) {
 	// For || a constant becomes jsonb next to jsonb and stays text next to anything else (text || anynonarray).
 	_, leftJSON := a.(JSON)
 	_, rightJSON := b.(JSON)
-	if !(x.Op == "->" || x.Op == "->>" || (x.Op == "-" && leftJSON) || (x.Op == "||" && !leftJSON && !rightJSON)) {
+	if _, isLit := x.R.(*StringLit); isLit && x.Op == "@@" && leftJSON {
+		if b, err = s.cast(b, Type{Name: "jsonpath"}, castIO); err != nil {
+			return nil, err
+		}
+	} else if !(x.Op == "->" || x.Op == "->>" || (x.Op == "-" && leftJSON) || (x.Op == "||" && !leftJSON && !rightJSON)) {
 		if a, b, err = s.coerceUnknown(x.L, x.R, a, b); err != nil {
 			return nil, err
 		}
@@ -438,7 +449,7 @@ func (s *session) evalBinary(x *Binary, sc *scope) (Value, error) {
 		_, aArr := a.(Array)
 		_, bArr := b.(Array)
 		switch x.Op {
-		case "+", "-", "*", "/", "%", "||", "->", "->>", "@>", "<@":
+		case "+", "-", "*", "/", "%", "||", "->", "->>", "@>", "<@", "@@":
 			if !aArr && !bArr {
 				return nil, nil // these operators are strict
 			}
@@ -512,6 +523,10 @@ func (s *session) evalBinary(x *Binary, sc *scope) (Value, error) {
 		}
 		if _, isArr := a.(Array); isArr {
 			return nil, unsupported("array operator %s", x.Op)
+		}
+	case "@@":
+		if jp, ok := b.(jsonPathEq); ok && aJSON && !ja.plain {
+			return jsonPathMatch(ja.V, jp)
 		}
 	default:
 		return nil, unsupported("operator %s", x.Op)
